@@ -2525,9 +2525,11 @@ def _inline_nested_thunks(fn, stats):
             if a.args or a.posonlyargs or a.kwonlyargs or a.vararg or a.kwarg or g.decorator_list:
                 continue
             body = [st for st in g.body if not (isinstance(st, ast.Expr) and isinstance(st.value, ast.Constant))]
-            if len(body) != 1 or not isinstance(body[0], ast.Return) or body[0].value is None:
+            if body and isinstance(body[-1], ast.If) and not body[-1].orelse:
+                body = body + [ast.Return(value=ast.Constant(value=None))]       # falling off the end answers None
+            E = _return_tree(body)
+            if E is None or len(body) == 1 and isinstance(body[0], ast.Return) and body[0].value is None:
                 continue
-            E = body[0].value
             if any(isinstance(n, (ast.Yield, ast.YieldFrom, ast.Await, ast.NamedExpr, ast.Lambda)) for n in ast.walk(E)):
                 continue
             own = list(_walk_same_scope_fn(fn))
